@@ -546,13 +546,14 @@ pub(crate) fn run_coroutine(mut co: CoroutineImpl) {
     #[cfg(may_verif)]
     crate::verif::event("co.resume", co_id, 0);
     match co.resume() {
+        #[cfg(may_verif)]
         Some(ev) => {
-            #[cfg(may_verif)]
             crate::verif::event("co.yield", co_id, 0);
             ev.subscribe(co);
-            #[cfg(may_verif)]
             crate::verif::event("co.subscribed", co_id, 0);
         }
+        #[cfg(not(may_verif))]
+        Some(ev) => ev.subscribe(co),
         None => {
             #[cfg(may_verif)]
             crate::verif::event("co.panic", co_id, 0);
